@@ -331,6 +331,27 @@ func c14SeamValidate(t *testing.T, c *vkit.Check) {
 				if !match {
 					c.Distinct(fmt.Sprintf("seam|reject|%s|cert=%s", fc.Class, remote.Kind))
 				}
+				// a Certificate message with two certificates: the peer proves possession of the FIRST one
+				// only, so that one decides (an impostor can append anybody's public certificate)
+				for _, chain := range []struct {
+					name  string
+					certs [][]byte
+				}{{"peer-then-other", [][]byte{der, otherDER}}, {"other-then-peer", [][]byte{otherDER, der}}} {
+					first := c14Matches(fc.List, chain.certs[0])
+					cerr := verifyOn(chain.certs, nil)
+					c.Eval()
+					switch {
+					case !first && cerr == nil:
+						c.Violation(fmt.Sprintf("seam|mismatch-accepted|chain=%s|%s|fn=verify-callback", chain.name, fc.Class),
+							fmt.Sprintf("the verify callback accepted a two-certificate chain (%s) whose first certificate - the one the peer proves possession of - matches none of the remote fingerprints (%s: %s)", chain.name, fc.Class, fc.Desc), rep)
+					case !first:
+						c14Outcome(c, "rejected|chain="+chain.name)
+					case cerr == nil:
+						c14Outcome(c, "accepted|chain="+chain.name)
+					default:
+						c14Outcome(c, "matching-but-rejected|chain="+chain.name)
+					}
+				}
 				// verification explicitly disabled: the statement makes no demand; recorded
 				if verifyOff([][]byte{der}, nil) == nil {
 					c14Outcome(c, "verification-disabled|accepted")
